@@ -424,6 +424,11 @@ def run_special(tier, r):
         ("stopif-in-focusedseq", C.Struct("a" / C.Byte, "f" / C.FocusedSeq("x", "x" / C.Byte, C.If(this._.a == 1, C.StopIf(True)), "y" / C.Byte), "b" / C.Byte), [b"\x01\x02\x03", b"\x00\x02\x03\x04"],
          [dict(a=1, f=2, b=3), dict(a=0, f=2, b=3)]),
         ("stopif-renamed-in-if", C.Struct("a" / C.Byte, "st" / C.If(this.a == 1, "inner" / C.StopIf(True)), "b" / C.Byte), [b"\x01\x02", b"\x00\x02"], [dict(a=1), dict(a=0, b=2)]),
+        # unions whose members have no static size: compile() may refuse them (SizeofError today); if it accepts, it must agree
+        ("union-varsize-0", C.Struct("u" / C.Union(0, "a" / C.CString("ascii"), "b" / C.VarInt), "t" / C.Byte), [b"ab\x00\x81\x01zz", b"\x00\x05\x06", b"a\x00\x07"], []),
+        ("union-varsize-name", C.Struct("u" / C.Union("a", "a" / C.VarInt, "b" / C.CString("ascii"), "c" / C.PascalString(C.Byte, "ascii")), "t" / C.Byte), [b"\x81\x01\x00zz", b"\x01a\x00\x05"], []),
+        ("union-varsize-mixed", C.Struct("u" / C.Union(1, "a" / C.Byte, "b" / C.VarInt, "c" / C.Int16ub), "t" / C.Byte), [b"\x81\x01\x07", b"\x01\x02\x03"], []),
+        ("union-varsize-none", C.Struct("u" / C.Union(None, "a" / C.CString("ascii"), "b" / C.VarInt), "t" / C.Byte), [b"ab\x00\x81\x01zz", b"\x00\x05"], []),
         ("union", C.Union(0, "a" / C.Int16ub, "b" / C.Byte, "c" / C.Bytes(2)), [b"\x01\x02", b"\x01"], [dict(a=258), dict(b=1), dict(c=b"xy")]),
         ("union-none", C.Struct("u" / C.Union(None, "a" / C.Int16ub, "b" / C.Byte), "t" / C.Byte), [b"\x01\x02\x03"], [dict(u=dict(a=5), t=1)]),
         ("union-name", C.Struct("u" / C.Union("b", "a" / C.Int16ub, "b" / C.Byte), "t" / C.Byte), [b"\x01\x02\x03"], []),
@@ -447,7 +452,7 @@ def run_special(tier, r):
         dc, err = try_compile(d)
         if dc is None:
             r.extra["special-compile-refused"] += 1
-            if "NotImplemented" not in err:
+            if "NotImplemented" not in err and not (name.startswith("union-varsize") and err.startswith("SizeofError")):
                 r.violation("C04/compile-raises/special/" + name, {"special": name, "op": "compile"}, "compile() raised %s" % err)
             continue
         for x in datas:
